@@ -321,6 +321,11 @@ LOOKUP = "peer = self.network.verified_by_public_key_bin.get(auth.public_key_bin
 def _ops_of(stmts, payload_var: str, where: str) -> list[str]:
     ops = []
     for st in stmts:
+        if isinstance(st, ast.AnnAssign) and st.value is not None and isinstance(st.target, ast.Name) \
+                and st.target.id in ("peer", "unpacked", "output"):
+            # a type annotation on a known local changes nothing: treat `x: T = e` as `x = e`
+            st = ast.copy_location(ast.Assign(targets=[st.target], value=st.value), st)
+            ast.fix_missing_locations(st)
         s = _norm(st).replace(", data, 23)", ", data, offset=23)").replace(", remainder, 23)", ", remainder, offset=23)")
         if s == UNPACK_AUTH:
             ops.append(".unpackAuth 23")
